@@ -21,7 +21,7 @@ thor=""; caught_thorough=$caught_quick
 if [ $qrc -ne 1 ]; then thor=$(tools/run_seeded.sh "$prop" "$src/m$k.diff" thorough 2>&1); [ $? -eq 1 ] && caught_thorough=true || caught_thorough=false; fi
 mkdir -p seeded/$id
 cp "$src/m$k.diff" seeded/$id/patch.diff; cp "$src/m${k}_demo.rs" seeded/$id/demo.rs
-python3 - "$id" "$prop" "$src/m$k.json" "$suite_ok" "$with_rc" "$without_rc" "$caught_quick" "$caught_thorough" "$quick" "$thor" <<'PY'
+python3 - "$id" "$prop" "$src/m$k.json" "$suite_ok" "$with_rc" "$without_rc" "$caught_quick" "$caught_thorough" "${quick: -1500}" "${thor: -1500}" <<'PY'
 import json,sys
 id,prop,mj,suite_ok,with_rc,without_rc,cq,ct,quick,thor=sys.argv[1:]
 try: m=json.load(open(mj))
